@@ -245,6 +245,9 @@ func WideFile() (protoreflect.FileDescriptor, error) {
 			{Name: proto.String("MODE_ONE"), Number: proto.Int32(1)},
 			{Name: proto.String("MODE_TWO"), Number: proto.Int32(2)},
 			{Name: proto.String("MODE_MODE_X"), Number: proto.Int32(7)},
+			// full name = the short name of the option before it: "MODE_X" must decode to 7 (short name as
+			// written first), "X" to 8; a name index built as one map would answer 8 for "MODE_X"
+			{Name: proto.String("MODE_X"), Number: proto.Int32(8)},
 		},
 	}
 
